@@ -1,7 +1,7 @@
 (* C09 -- the generic stropping theorems instantiated with the configuration regenerated from /repo
    (Generated/Gen_Strop.v) and the Unicode tables of the running interpreter (Generated/Gen_Uni.v).
    The side conditions are recomputed by vm_compute from the regenerated data on every build. *)
-From Verif Require Import StropInst StropThmRe StropThmEnc StropThm StropThmId.
+From Verif Require Import StropInst StropThmRe StropThmEnc StropThm StropThmId StropThmPipe StropThmHandler.
 Open Scope N_scope.
 
 Lemma chk_sound_c : chk_sound py_uni cfg_c = true.     Proof. vm_compute; reflexivity. Qed.
@@ -135,4 +135,50 @@ Lemma py_reserved_covers_interpreter_thm :
 Proof.
   assert (H : forallb (fun w => reserved_lang LPy w) (py_kwlist ++ py_interpreter_reserved) = true) by (vm_compute; reflexivity).
   rewrite forallb_forall in H. exact H.
+Qed.
+
+(* ---- the configurations under the exercised overrides: a fact about every entry of cfgs_ov gives one about cfg_sel ---- *)
+Lemma cfg_sel_all (P : strop_cfg -> bool) :
+  (forall l, P (cfg_of l) = true) ->
+  forallb (fun t => P (pick LC t) && P (pick LCpp t) && P (pick LPy t)) cfgs_ov = true ->
+  forall k l, P (cfg_sel k l) = true.
+Proof.
+  intros Hb Ha k l. unfold cfg_sel. destruct k as [|k]; [apply Hb|].
+  destruct (nth_error cfgs_ov k) as [t|] eqn:E; [|apply Hb]. apply nth_error_In in E.
+  rewrite forallb_forall in Ha. specialize (Ha t E). apply andb_prop in Ha as [Ha H3]. apply andb_prop in Ha as [H1 H2].
+  destruct l; assumption.
+Qed.
+
+Lemma chk_sound_sel k l : chk_sound py_uni (cfg_sel k l) = true.
+Proof. apply (cfg_sel_all (chk_sound py_uni)); [exact chk_sound_lang|vm_compute; reflexivity]. Qed.
+
+Lemma strop_sound_sel k l ty tok t :
+  tok <> [] -> strop_sel k l ty tok = Ok t ->
+  valid_ident t = true /\ reserved_sel k l t = false /\ pattern_sel k l ty t = false.
+Proof. exact (strop_sound_gen py_uni py_isspace (cfg_sel k l) (chk_sound_sel k l) ty tok t). Qed.
+
+(* ---- the regenerated step list of TokenEncoder.strop ---- *)
+Lemma pipeline_is_model_thm : strop_pipeline = model_pipeline strop_reverifies.
+Proof. reflexivity. Qed.
+
+Lemma reverify_sel k l : Bool.eqb (sc_reverify (cfg_sel k l)) strop_reverifies = true.
+Proof.
+  apply (cfg_sel_all (fun c => Bool.eqb (sc_reverify c) strop_reverifies)); [intros []; vm_compute; reflexivity|vm_compute; reflexivity].
+Qed.
+
+Lemma strop_is_regenerated_pipeline_thm k l ty s : strop_sel k l ty s = strop_sel_pipeline k l ty s.
+Proof.
+  unfold strop_sel, strop_sel_pipeline. rewrite strop_is_pipeline, pipeline_is_model_thm.
+  rewrite (Bool.eqb_prop _ _ (reverify_sel k l)). reflexivity.
+Qed.
+
+(* ---- the translated failure handlers ---- *)
+Lemma handlers_are_model_thm :
+  handlers_translated = repeat (model_handler_pre, model_handler_grp, model_handler_tmpl) (length handlers_translated).
+Proof. reflexivity. Qed.
+
+Lemma handlers_translated_und_thm h : In h handlers_translated ->
+  forall s, handler_gen py_uni (fst (fst h)) (snd (fst h)) (snd h) s = handler_und s.
+Proof.
+  rewrite handlers_are_model_thm. intros Hin s. apply repeat_spec in Hin. subst h. apply handler_gen_is_und.
 Qed.
